@@ -214,7 +214,7 @@ Proof.
                w_closed := w_closed w1 ++ [{| sg_seq := w_seq w1; sg_idx := w_idx w1; sg_bytes := w_tail w1; sg_rec := w_tailrec w1 |}];
                w_seq := w_seq w1 + 1; w_idx := w_enti w1 + 1; w_tail := [];
                w_pw := {| pw_off := 0; pw_buf := 0; pw_flushed := 0 |};
-               w_sync := w_sync w1; w_nrec := w_nrec w1; w_tailrec := w_nrec w1 |}).
+               w_sync := w_sync w1; w_nrec := w_nrec w1; w_tailrec := w_nrec w1; w_tailsize := w_segsize w1 |}).
   assert (H2 : tinv w2 (w_crc w1) []).
   { constructor; cbn [w2 w_tail w_crc w_pw w_sync w_seq w_meta w_state]; auto.
     - rewrite Hc. now apply encode_all_crc_lt.
@@ -285,7 +285,7 @@ Proof.
   set (w0 := {| w_opt := opt; w_segsize := seg; w_meta := meta; w_state := hs_empty; w_enti := 0; w_crc := 0;
                w_closed := []; w_seq := 0; w_idx := 0; w_tail := [];
                w_pw := {| pw_off := 0; pw_buf := 0; pw_flushed := 0 |};
-               w_sync := None; w_nrec := 1; w_tailrec := 0 |}).
+               w_sync := None; w_nrec := 1; w_tailrec := 0; w_tailsize := seg |}).
   assert (H0 : tinv w0 0 []).
   { constructor; cbn [w0 w_tail w_crc w_pw w_sync w_seq w_meta w_state]; auto; try reflexivity; try discriminate.
     unfold hs_wf. cbn. repeat split; reflexivity. }
@@ -361,7 +361,7 @@ Proof.
                w_closed := w_closed w1 ++ [{| sg_seq := w_seq w1; sg_idx := w_idx w1; sg_bytes := w_tail w1; sg_rec := w_tailrec w1 |}];
                w_seq := w_seq w1 + 1; w_idx := w_enti w1 + 1; w_tail := [];
                w_pw := {| pw_off := 0; pw_buf := 0; pw_flushed := 0 |};
-               w_sync := w_sync w1; w_nrec := w_nrec w1; w_tailrec := w_nrec w1 |}).
+               w_sync := w_sync w1; w_nrec := w_nrec w1; w_tailrec := w_nrec w1; w_tailsize := w_segsize w1 |}).
   assert (H2 : tinv w2 (w_crc w1) []).
   { constructor; cbn [w2 w_tail w_crc w_pw w_sync w_seq w_meta w_state]; auto.
     - rewrite Hc. now apply encode_all_crc_lt.
@@ -475,7 +475,7 @@ Proof.
   set (w0 := {| w_opt := opt; w_segsize := seg; w_meta := meta; w_state := hs_empty; w_enti := 0; w_crc := 0;
                w_closed := []; w_seq := 0; w_idx := 0; w_tail := [];
                w_pw := {| pw_off := 0; pw_buf := 0; pw_flushed := 0 |};
-               w_sync := None; w_nrec := 1; w_tailrec := 0 |}).
+               w_sync := None; w_nrec := 1; w_tailrec := 0; w_tailsize := seg |}).
   assert (H0 : tinv w0 0 []).
   { constructor; cbn [w0 w_tail w_crc w_pw w_sync w_seq w_meta w_state]; auto; try reflexivity; try discriminate.
     unfold hs_wf. cbn. repeat split; reflexivity. }
